@@ -102,8 +102,9 @@ func (vc *VC) runAnchors(st *State, when string, site ssa.Instruction, name stri
 	if q, ok := vc.callOrdQ[site]; ok {
 		wantQ = fmt.Sprintf("%s call %s", when, q)
 	}
+	wantAny := fmt.Sprintf("%s call %s#*", when, name) // every call of that name
 	for i, ac := range vc.contract.Asserts {
-		if a := strings.Join(strings.Fields(ac.Anchor), " "); a != want && a != wantQ {
+		if a := strings.Join(strings.Fields(ac.Anchor), " "); a != want && a != wantQ && a != wantAny {
 			continue
 		}
 		vc.anchorsHit[i] = true
